@@ -343,6 +343,12 @@ impl Timestamp {
     /// Guaranteed to return a value greater than any previous call, even if the
     /// system clock jumps backward (e.g. due to NTP correction).
     pub fn now() -> Self {
+        // A simulator may supply the whole (per-run monotonic) reading, so that runs sharing one
+        // process do not influence each other through `LAST_TIMESTAMP`.
+        #[cfg(iroh_verif)]
+        if let Some(v) = iroh_base::verif::stub("pkarr.timestamp.now", "").and_then(|v| v.parse().ok()) {
+            return Self(v);
+        }
         use n0_future::time::SystemTime;
         let micros = SystemTime::now()
             .duration_since(SystemTime::UNIX_EPOCH)
